@@ -139,6 +139,18 @@ Theorem C11_delete_removes_exactly_one_entry :
 Proof. exact delete_first_split. Qed.
 Print Assumptions C11_delete_removes_exactly_one_entry.
 
+(* Ids are never re-assigned during a manager's lifetime (any history without
+   NewManagerFromHandle, which starts a new lifetime): an id that names a key now names
+   the SAME key object, with the same id requirement, in every later state in which it
+   occurs at all - also after Delete. *)
+Theorem C11_id_denotes_the_same_key_for_life :
+  forall ops s e0,
+    SInv s -> Forall (fun o => forall k, o <> OFromHandle k) ops ->
+    In e0 (ents (smgr s)) ->
+    forall e', In e' (ents (smgr (fst (run s ops)))) -> eid e' = eid e0 -> kp e' = kp e0.
+Proof. exact id_denotes_same_key. Qed.
+Print Assumptions C11_id_denotes_the_same_key_for_life.
+
 (* Non-vacuity: a concrete history exercising collisions, errors and Handle. *)
 Example C11_nonvacuous :
   let h0 := [mkEntry 5 Enabled true (Some 5) 0; mkEntry 7 Destroyed false None 1] in
